@@ -273,6 +273,11 @@ class TypedNode(Node):
                 self.add_child(n, before=before, deep=deep)
             return
 
+        # Validate arguments before the new node is created and registered
+        if not isinstance(kind, str) or kind == ANY_KIND:
+            raise ValueError(f"Unsupported `kind`: {kind!r}")
+        insert_pos = self._calc_insert_pos(before)
+
         source_node = None
         factory = self._tree._node_factory
         if isinstance(child, Node):  # TypedNode):
@@ -306,22 +311,11 @@ class TypedNode(Node):
 
         children = self._children
         if children is None:
-            assert before in (None, True, int, False)
             self._children = [node]
-        elif before is True:  # prepend
-            children.insert(0, node)
-        elif isinstance(before, int):
-            children.insert(before, node)
-        elif before:
-            if before._parent is not self:
-                raise ValueError(
-                    f"`before=node` ({before._parent}) "
-                    f"must be a child of target node ({self})"
-                )
-            idx = children.index(before)  # raises ValueError
-            children.insert(idx, node)
-        else:
+        elif insert_pos is None:
             children.append(node)
+        else:
+            children.insert(insert_pos, node)
 
         if deep and source_node:
             node._add_from(source_node)
